@@ -54,6 +54,10 @@ ROWS = [
  ("C04", "exactly-one-group-none-accepted/kwargs", "fixed", "an empty string satisfied an exactly-one group", "a member of an exactly-one group passed as '' (or read from an empty element) counted as present and was then stored as None: INTRASYNCRQ(token='', ...) existed with none of token/tokenonly/refresh (19 classes; pointed out by a seeding sub-agent on the unchanged tree)"),
  ("C04", "empty-list-element-accepted/kwargs", "fixed", "None and '' were accepted as members of an element list", "TAX1099RQ(None, '2020'), PAYEERQ('') ... held a None member and wrote an empty element (12 element-list classes; pointed out by a seeding sub-agent)"),
  ("C04", "out-of-order-accepted/etree", "fixed", "a child could follow list members it should precede", "TAX1099INT_V100 accepted ORIGSTATE, FORINCOME, TAXEXEMPTINT: after an exempted list member the sequence position fell back to the lower index (pointed out by a seeding sub-agent)"),
+ ("C09", "reject/accepted/length-trailing-newline", "fixed", "date-time texts with a trailing line break", "DateTime/Time texts with one trailing line break ('20111117\\n': wrong length) or with non-ASCII digits in the offset minutes ('[+5.\u0663\u0660]') were accepted: '$' anchor and \\d (also reject/accepted/non-ascii-digit; reported by seeding sub-agents on the unchanged tree)"),
+ ("C12", "corrupt/v1/accepted/VERSION", "fixed", "header numbers with leading zeros", "VERSION:0102 / OFXHEADER:0100 (over-long) were read as 102 / 100, and numbers in non-ASCII digits were accepted by OFXHeaderV1/V2.parse (also corrupt/v2/accepted/VERSION, corrupt/*/accepted/OFXHEADER, corrupt/OFXHeaderV*/accepted/*-non-ascii-digits; reported by a seeding sub-agent)"),
+ ("C04", "out-of-order-accepted/etree/TAX1099INT_V100.origstate,forincome", "fixed", "list members of different runs could interleave", "members of the later run of repeated children before members of the earlier run (ORIGSTATE, FORINCOME), or an earlier-run member after the plain child between the runs, were accepted (reported by a seeding sub-agent after 8f6fa53)"),
+ ("C18", "persist/checking/not-what-was-saved", "fixed", "--all --write left account lists", "'stmt --all --write' left the saved account list of a type of which the server lists no ACTIVE account in ofxget.cfg: the next run without --all requested those accounts again (reported by a seeding sub-agent; also persist/<other list>/not-what-was-saved)"),
  ("C06", "caller-string-entity-decoded", "known", None, "a user id / password / account id / ORG / FID... that the CALLER passes and that contains an OFX entity sequence (e.g. password 'a&lt;b' or account 'x&amp;y') is entity-decoded by String.convert() when the request model is built, so the request carries 'a<b' / 'x&y' instead of what was supplied. Not repaired: the decode-on-assignment is by design shared between parsed text and Python values; a repair needs ~20 call sites in Client.py or an API change"),
  ("C15", "wrong-server/same-org-fid-different-url", "fixed", "FI profile cached from one server", "cache keyed by ORG-FID only: client of another URL sent A's DTPROFUP and used A's profile"),
 ]
